@@ -13,7 +13,7 @@ func init() {
 	register(&Check{
 		ID:    "C09",
 		Level: "exploration",
-		Rule: "every accepted program of the drivers D1 (<= 3 nodes), D2x (every primitive incl. empty literals, multi-byte `not`, multi-byte `not in` items and ranges, whole line/word/file and their negations; singles, pairs, under every loop), D3, D4 (captures, back-references to optional captures), D6, D7 (nullable bodies, empty groups), fixed named-loop / regex (\\b \\B) / recursion programs x EVERY text of the driver alphabet from length 0, so every input that ends in the middle of every construct is present; " +
+		Rule: "every accepted program of the drivers D1 (<= 3 nodes), D2x (every primitive incl. empty literals, multi-byte `not`, multi-byte `not in` items and ranges, whole line/word/file and their negations; singles, pairs, under every loop), D3, D4 (captures, back-references to optional captures), D6, D7 (nullable bodies, empty groups), fixed named-loop / regex (\\b \\B) / recursion programs, every class alone under `in` / `not in`, process code over captures that carry the name of a built-in (10 names x every operator x 3 program shapes) x EVERY text of the driver alphabet from length 0, so every input that ends in the middle of every construct is present; " +
 			"process code: every operator applied to a variable whose value comes from either branch of an `if` (all type pairs), run as transform and predicate on match texts {a,0,7,12x}; RunFiles on an empty file, a 1-byte file and a directory; oracle: Run/RunFiles return, no panic; non-trivial = distinct (program,text) runs with non-empty text",
 		Assume: []string{"termination is C10's subject (a step budget aborts a spin here and reports it)"},
 		Budget: map[string]int{"quick": 150, "thorough": 1500},
@@ -237,8 +237,57 @@ func relNames(t []string, dir string) []string {
 	return out
 }
 
+// captures that carry the name of a built-in of the process language: the checker types the name
+// as the built-in, the evaluator must not be handed the capture in its place
+func runC09Shadow(c *Ctx) {
+	if !c.Level("process:captures named like built-ins") {
+		return
+	}
+	builtins := []string{"match", "matchLength", "matchNumber", "startOffset", "endOffset", "totalMatches", "lineNumber", "columnNumber", "value", "filename"}
+	others := []string{"1", "'a'", "true", "match", "matchLength", "matchNumber"}
+	ops := append(append([]string{}, binOps...), "not", "head", "tail")
+	for _, b := range builtins {
+		b := b
+		if !c.Unit(func() string { return "a capture named " + b }) {
+			continue
+		}
+		for _, op := range ops {
+			var exprs []string
+			if op == "not" || op == "head" || op == "tail" {
+				exprs = []string{op + " " + b}
+			} else {
+				exprs = []string{b + " " + op + " " + b}
+				for _, o := range others {
+					exprs = append(exprs, b+" "+op+" "+o, o+" "+op+" "+b)
+				}
+			}
+			for _, e := range exprs {
+				for _, src := range []string{
+					"set f to transform set r to " + e + " return 'v' + r end\nreplace all (any = " + b + ") any with f",
+					"set f to transform set r to " + e + " return 'v' + r end\nreplace all any maybe ('7' = " + b + ") with f " + b,
+					"set p to pattern (any = " + b + ") any begin set r to " + e + " return r == r end\nfind all p",
+				} {
+					v, err, pi := compileSafe(src)
+					if pi != nil || err != nil {
+						c.Count("rejected_sources", 1)
+						continue
+					}
+					for _, t := range []string{"ab", "77", "a7b", "0"} {
+						c.Eval(1)
+						c.Nontrivial(1)
+						if _, pi := runSafe(v, t); pi != nil {
+							c.Violation("PROCESS-PANIC shadow "+pi.Site+" "+firstLine(pi.Msg), fmt.Sprintf("%q on %q panics: %s", src, t, pi.Msg), map[string]any{"kind": "spans", "src": src, "text": t, "want": "?"})
+						}
+					}
+				}
+			}
+		}
+	}
+}
+
 // process code whose variable types depend on the branch taken
 func runC09Process(c *Ctx) {
+	runC09Shadow(c)
 	if !c.Level("process:branch-dependent types") {
 		return
 	}
